@@ -5,24 +5,28 @@ from Norm.tla (normgen.py)."""
 
 def header42(fname="main.c", login="marvin", domain="student.42.fr",
              created="2024/01/01 10:00:00", updated="2024/01/02 11:30:00"):
-    def line(body):
-        assert len(body) <= 74, body
-        return "/* " + body.ljust(74) + " */"
+    # stdheader.vim: margin 5, "/*" + 3 blanks + left text clipped and padded to 45 columns + 25-column art row + 3 blanks + "*/"
+    art = ["        :::      ::::::::", "      :+:      :+:    :+:", "    +:+ +:+         +:+  ", "  +#+  +:+       +#+     ",
+           "+#+#+#+#+#+   +#+        ", "     #+#    #+#          ", "    ###   ########.fr    "]
+
+    def row(left, n):
+        return "/*   " + left[:45].ljust(45) + art[n] + "   */"
     star = "/* " + "*" * 74 + " */"
-    by = f"By: {login} <{login}@{domain}>"
+    blank = "/* " + " " * 74 + " */"
     L = [
         star,
-        line(""),
-        line(" " * 56 + ":::      ::::::::"),
-        line("  " + fname.ljust(51) + ":+:      :+:    :+:"),
-        line(" " * 52 + "+:+ +:+         +:+"),
-        line("  " + by.ljust(43) + "+#+  +:+       +#+"),
-        line(" " * 48 + "+#+#+#+#+#+   +#+"),
-        line("  " + f"Created: {created} by {login}".ljust(49) + "#+#    #+#"),
-        line("  " + f"Updated: {updated} by {login}".ljust(48) + "###   ########.fr"),
-        line(""),
+        blank,
+        row("", 0),
+        row(fname, 1),
+        row("", 2),
+        row(f"By: {login} <{login}@{domain}>", 3),
+        row("", 4),
+        row(f"Created: {created} by {login}", 5),
+        row(f"Updated: {updated} by {login}", 6),
+        blank,
         star,
     ]
+    assert all(len(x) == 80 for x in L), L
     return "\n".join(L) + "\n"
 
 
@@ -96,6 +100,17 @@ ERR_VARIANTS = {
     "for_loop": lambda s: s.replace("\twhile (res < 0)\n", "\tfor (;res < 0;)\n"),
     "op_spacing": lambda s: s.replace("res = a + b;", "res = a +b;"),
 }
+
+
+def err_many_c(name="err.c"):
+    """one file with diagnostics of many different checks (spacing, return, indentation, declaration, control structure, operator,
+    line length, global, comment in a function, empty line, too many instructions)"""
+    s = clean_c(name)
+    for v in ("trailing_space", "no_paren_return", "decl_assign", "for_loop"):
+        s = ERR_VARIANTS[v](s)
+    s = s.replace("#include <unistd.h>\n", "#include <unistd.h>\n\n/* " + "x" * 80 + " */\n\nint\tg_count = 0;\n")
+    s = s.replace("\tres = a + b; \n", "\tres = a +b; \n\t/* here */\n\n\tres = 1; res = 2;\n")
+    return s
 
 
 def err_c(name="err.c", variant="trailing_space"):
